@@ -58,5 +58,7 @@ class CteExtractor(BaseExtractor):
                         holder.add_cte(SqlFluffSubQuery.of(sub_segment, alias))
 
         self.extract_subquery(subqueries, holder)
+        # the columns of a CTE are known only now: expand the wildcards that select from it
+        holder.expand_wildcard(self.metadata_provider)
 
         return holder
